@@ -444,3 +444,55 @@ func groupRecursionWitness(s *sink, g *hx.Gen) {
 		}
 	}
 }
+
+// groupDupKeys: two raw map keys that denote the same key after conversion (one already in
+// canonical form, one not; or two non-canonical ones). The verdict must not depend on the order
+// in which the runtime visits the entries (C12), and the model says: rejected.
+func groupDupKeys(s *sink, g *hx.Gen) {
+	val := func() *hx.Val { return hx.Int("int64", int64(g.R.Intn(5))) }
+	n := int64(g.R.Intn(7))
+	ns := strconv.FormatInt(n, 10)
+	var t *hx.Ty
+	var pairs [][2]*hx.Val
+	switch g.R.Intn(4) {
+	case 0: // integer-keyed map: canonical int64 plus a string / another integer kind
+		t = &hx.Ty{T: "map", K: &hx.Ty{T: "int"}, V: &hx.Ty{T: "int"}}
+		pairs = [][2]*hx.Val{{hx.Int("int64", n), val()}, {hx.Str(ns), val()}}
+		if g.R.Intn(2) == 0 {
+			pairs[1][0] = hx.Uint("uint64", uint64(n))
+		}
+	case 1: // string-keyed map: canonical string plus an integer rendering to it
+		t = &hx.Ty{T: "map", K: &hx.Ty{T: "str"}, V: &hx.Ty{T: "int"}}
+		pairs = [][2]*hx.Val{{hx.Str(ns), val()}, {hx.Int("int64", n), val()}}
+	case 2: // two non-canonical keys
+		t = &hx.Ty{T: "map", K: &hx.Ty{T: "int"}, V: &hx.Ty{T: "int"}}
+		pairs = [][2]*hx.Val{{hx.Uint("uint64", uint64(n)), val()}, {hx.Str(ns), val()}}
+	default: // the any schema converts integer kinds to int64
+		t = &hx.Ty{T: "any"}
+		pairs = [][2]*hx.Val{{hx.Int("int64", n), val()}, {hx.Uint("uint64", uint64(n)), val()}}
+	}
+	// a few unrelated entries around them, in random order
+	for i := 0; i < g.R.Intn(3); i++ {
+		pairs = append(pairs, [2]*hx.Val{hx.Int("int64", 100+int64(i)), val()})
+	}
+	g.R.Shuffle(len(pairs), func(i, j int) { pairs[i], pairs[j] = pairs[j], pairs[i] })
+	m := hx.AnyAny(pairs...)
+	// wrap it at a random position so that nested maps are covered too
+	switch g.R.Intn(3) {
+	case 1:
+		t = &hx.Ty{T: "list", Item: t}
+		m = hx.List(m)
+	case 2:
+		t = &hx.Ty{T: "obj", ID: "W", Props: []hx.NamedProp{{Name: "m", P: &hx.Prop{Ty: t}}, {Name: "x", P: &hx.Prop{Ty: &hx.Ty{T: "bool"}}}}}
+		m = hx.StrAny([2]*hx.Val{hx.Str("m"), m})
+	}
+	res, id, _ := s.emit("U", t, m, nil, false, "class", "dupkeys")
+	for i := 0; i < 12; i++ {
+		again := hx.Guard(func() hx.Result { rr, _ := hx.RunOpRaw("U", t.Build(), m.ToGo()); return rr })
+		if again.R != res.R || (res.R == "ok" && hx.Canon(again.V) != hx.Canon(res.V)) {
+			s.finding(Finding{Prop: "C12", What: "Unserialize is not a function of its argument: keys that denote the same key are accepted or rejected depending on map iteration order",
+				Cases: []int{id}, Schema: t, Input: m, Detail: []string{res.JSON(), again.JSON()}})
+			break
+		}
+	}
+}
